@@ -11,6 +11,9 @@ func (p *Parser) parseDocElement() (INode, *Error) {
 		right := p.PeekTypeN(1, TokenSymbol)
 		n.trimLeft = left != nil && left.TrimWhitespaces
 		n.trimRight = right != nil && right.TrimWhitespaces
+		n.tpl = p.template
+		n.afterBlockTag = left != nil && left.Val == "%}"
+		n.beforeBlockTag = right != nil && right.Val == "{%"
 		p.Consume() // consume HTML element
 		return n, nil
 	case TokenSymbol:
